@@ -8,40 +8,112 @@ TB = ("Trusted: Coq 8.16.1 kernel + vm_compute; no axioms (Print Assumptions: cl
       "Rust wrap/shift/cast semantics as modelled in coq/Base.v.")
 
 CHECKS = {
+ "C01": dict(
+   text="PARTIAL proof + evaluation. Coq theorems (all inputs) for each ingredient of sign-then-verify: the hint rule (make_hint/use_hint round trip for every w1 and |a0| < 2*gamma2), "
+        "every emitted signature is the packing of a z with ||z|| < gamma1-beta and a 0/1 hint vector of weight <= omega (so the verifier's gate passes), the hint and z codecs round-trip, "
+        "signer and verifier frame identically. The ring identity linking the signer's and verifier's NTT-domain computations is not yet a theorem and termination is unprovable; that link is "
+        "decided by execution: ~10^5 crate sign/verify round trips per run over all sets, modes, message lengths straddling SHAKE blocks, contexts, reused buffers, seeded and unseeded keys, "
+        "cross-checked with an independent verifier/signer, plus sign/verify chains replayed in the model.",
+   ref="DESIGN.md section 3 C01 and section 12", technique="Coq proofs of the ingredients (partial) + differential execution + volume self-verification"),
+ "C02": dict(
+   text="PARTIAL by nature: rejection of altered data rests on SHAKE-256 collision resistance / SelfTargetMSIS. Coq theorems for the structural part: length gate (truncation/extension rejected), "
+        "acceptance only through the strict decoder and the z-norm gate, comparison of ALL challenge bytes, verdict depends only on the decoded triple. The negatives are evaluated: every "
+        "single-bit flip of signatures (exhaustive, 8*SIGNBYTES per signature and set), truncations/extensions, every message bit flip, other key / context / mode / hash / sibling scheme; "
+        "model agrees on a stratified sample.",
+   ref="DESIGN.md section 3 C02", technique="Coq structural theorems + exhaustive bit-flip evaluation on the crate + model correspondence"),
+ "C03": dict(
+   text="Coq theorems (all byte strings, messages, keys): acceptance implies exact length, hint section accepted by the strict decoder (= FIPS 204 HintBitUnpack, canonical, weight <= omega), "
+        "||z|| < gamma1-beta, whole-challenge equality; malformed hints, large z or any challenge mismatch force rejection; API wrappers decide as the core on the framed message. The equality of "
+        "the recomputed challenge pipeline with the ring expression UseHint(h, Az - c t1 2^d) is not yet a theorem: decided by executing crate = independent Verify_internal = model on genuine "
+        "signatures, another signer's signatures, every hint-section defect on valid signatures (hash-consistent near-misses), signatures from a signer that skips the z test incl. z exactly at "
+        "+-(gamma1-beta), boundary accepts, random bytes.",
+   ref="DESIGN.md section 3 C03", technique="Coq proofs (strictness, gates) + differential execution with crafted hash-consistent near-misses"),
+ "C04": dict(
+   text="PARTIAL proof + evaluation. Coq theorems: unseeded = seeded function of exactly the 32 drawn bytes; result independent of buffers; s1,s2 = ExpandS and A = ExpandA of the real SHAKE "
+        "streams with ranges; pk/sk containers = pkEncode/skEncode (C16); sizes. The ring-level identification of t = A s1 + s2 and byte equality with KeyGen_internal is not yet a theorem: "
+        "decided by executing crate = independent KeyGen (Python, hashlib) on ~36 000 seeds per run (volume, catches 1-in-2000 sampler/rounding events), = model on a subset, scripted and "
+        "recorded RNG, and the algebraic relation on decoded keys.",
+   ref="DESIGN.md section 3 C04", technique="Coq proofs of the components (partial) + differential execution vs independent KeyGen at volume"),
+ "C05": dict(
+   text="PARTIAL proof + evaluation. Coq theorems: randomness enters only as the drawn bytes (rnd in rho''=H(K||rnd||mu) for ML-DSA, rho' itself for Dilithium), deterministic signing draws nothing, "
+        "buffer-independent, API signs the framed M', mask = ExpandMask(rho'', L*kappa+i), attempts run in counter order and the first one passing the four tests in the specification's order is "
+        "returned. Identification of the NTT-domain intermediates with Sign_internal's ring expressions is not yet a theorem: decided by executing crate = independent Sign_internal on the "
+        "message-length/context/mode grid, scripted randomness, crafted secret keys forcing rare rejection causes; = model on cheap cases.",
+   ref="DESIGN.md section 3 C05", technique="Coq proofs of the structure (partial) + differential execution vs independent Sign_internal"),
+ "C06": dict(
+   text="Coq theorems (all keys bytes, messages, modes, tapes, fuel): whatever the model's signer returns is the packing of (z, h) of an attempt that passed all four tests on the signer's "
+        "intermediates, hence ||z|| < gamma1-beta, h a 0/1 vector of weight <= omega, low-bits vector < gamma2-beta, c*t0 vector < gamma2; rejected attempts were rejected for a stated reason. "
+        "Identification of the intermediates with LowBits(Ay - c s2), c t0 and the challenge hash is by execution: every crate signature (all modes incl. real RNG; crafted keys) is decoded by an "
+        "independent decoder and all conditions recomputed with the secret key; ~80 000 signatures per run structurally checked in the harness.",
+   ref="DESIGN.md section 3 C06", technique="Coq proofs (inversion of the signer + norm exactness) + independent recomputation on crate signatures"),
+ "C07": dict(
+   text="Coq theorems: representatives 0||len||ctx||M and 1||len||ctx||OID||H(M) (SHA-256/512 defined per FIPS 180-4 in Gallina), absent = empty context, signer and verifier use the same "
+        "representative, contexts > 255 bytes refused by all four entry points with nothing drawn, framing injective (domain separation). 'Never verifies under another descriptor' beyond "
+        "M'1 <> M'2 is cryptographic: evaluated on all ordered pairs of ~29 descriptors per set (incl. equal ctx||M splits, digests as messages, wrapped length bytes for ctx >= 256); API signature "
+        "= core signature over the Python-computed M'.",
+   ref="DESIGN.md section 3 C07", technique="Coq proofs (framing, injectivity, gates) + cross-verification of all descriptor pairs on the crate"),
+ "C08": dict(
+   text="Coq theorem: for the six sets, ANY byte string as signature (any length), any message, any context, any public key of the right length, verification never panics (no overflow, no "
+        "out-of-bounds) and returns a boolean — incl. the no-overflow chain through the NTT pipeline with ranges at every step and totality of the hint decoder on adversarial counters; API "
+        "verifiers likewise. Key generation and signing no-overflow are not yet theorems: both builds (overflow-checked and release) are executed on adversarial signatures (structured counters, "
+        "extreme z/t1/pk), sampler refill paths through the XOF tap, and 360 000 honest key generations per run.",
+   ref="DESIGN.md section 3 C08", technique="Coq proof (verify total) + checked-vs-release differential execution + volume"),
+ "C09": dict(
+   text="Coq theorems (the part that is logic): which operations draw, exactly how many bytes (0 / 32 / 64), in call order for any history, and that outputs are a function of the drawn bytes "
+        "used only as seed / rnd / rho'. Freshness from an OS-seeded CSPRNG and distinctness are runtime facts outside any model: the RNG tap records requests in both builds (log must be "
+        "[32]/[64]/[], outputs reproduced from the recorded bytes by an independent reference, repeated calls pairwise distinct).",
+   ref="DESIGN.md section 3 C09", technique="Coq proofs over an explicit randomness tape + RNG-tap recording in both builds"),
+ "C10": dict(
+   text="Coq theorems about the model: the only inter-operation state is the tape; deterministic operations give the same result after any history; results are independent of incoming "
+        "buffer contents (scratch reuse across rejected attempts). Data races / hidden state in the real code cannot be exhibited by a Gallina model: observed instead — histories (all sets, "
+        "core and API level, look-alike keys, alternating contexts/modes) run in order and shuffled on 1..16 threads against history-free expectations from an independent reference.",
+   ref="DESIGN.md section 3 C10", technique="Coq proofs (statelessness, buffer independence) + history/thread probes with independent expectations"),
+ "C11": dict(
+   text="Coq theorems: from_bytes succeeds iff the length is exact and returns the bytes; the pair is SK||PK, any other total length is refused; both round trips; standard sizes for six sets; "
+        "same behaviour through re-serialised containers. Tied to the six API files by executing model and crate on generated keys, random bytes, all wrong lengths, swapped order.",
+   ref="DESIGN.md section 3 C11", technique="Coq proof + differential execution model vs crate"),
+ "C12": dict(
+   text="Coq theorems: the source's unrolled two-round Keccak body (machine-translated from fips202.rs on every run) equals two FIPS 202 rounds for all lanes; round constants = LFSR of "
+        "Alg. 5; keccakf = Keccak-p[1600,24]; for both rates any split of the input over absorb calls and any split of the output over squeeze calls (incl. requests longer than a block) "
+        "yields exactly SHAKE; squeeze-blocks at block boundaries; one-shot; absorb_once; stream_init. Tied to the crate by executing histories vs model and vs hashlib.",
+   ref="DESIGN.md section 3 C12", technique="source translation of the Keccak body + Coq proof (symbolic rounds, sponge invariants) + differential execution"),
+ "C13": dict(
+   text="Coq theorems: for all coefficient vectors in (-q,q)^256 the forward transform succeeds without overflow, stays below 9q and evaluates the polynomial at 1753^(2 brv8(i)+1); the inverse "
+        "inverts it up to 2^32 with outputs below q; transform-pointwise-inverse equals the schoolbook negacyclic product mod q; the source's twiddle table (translated on every run) is "
+        "2^32*1753^brv8(k) centred, F = 2^64/256. Tied to ntt.rs / poly.rs by executing both on basis vectors, extremes, random inputs, products vs schoolbook.",
+   ref="DESIGN.md section 3 C13", technique="Coq proof (parametricity of the butterfly network + computed Vandermonde matrix) + differential execution"),
  "C14": dict(
-   text="Machine-checked proof (Coq) that the model's montgomery_reduce, reduce32 and caddq meet the stated congruence and "
-        "range on their whole documented domains (all 2^54.. inputs, not samples), that the reduce32 domain edge is real, "
-        "and that q*QINV = 1 mod 2^32; the model is tied to reduce.rs by executing both on every domain boundary plus "
-        "random inputs in checked and release builds, with an independent congruence/range oracle on the crate's outputs.",
-   ref="DESIGN.md section 3, C14", technique="Coq proof (lia over wrap_spec) + differential execution model vs crate"),
+   text="Machine-checked proof (Coq) that the model's montgomery_reduce, reduce32 and caddq meet the stated congruence and range on their whole documented domains (all inputs, not samples), "
+        "that the reduce32 domain edge is real, and that q*QINV = 1 mod 2^32; tied to reduce.rs by executing both on every domain boundary, random inputs and sweeps (caddq exhaustively in the "
+        "thorough tier) in checked and release builds, with an independent oracle.",
+   ref="DESIGN.md section 3 C14", technique="Coq proof (lia over wrap_spec) + differential execution model vs crate"),
  "C15": dict(
-   text="Machine-checked proofs (Coq) that the model's power2round, decompose, use_hint and make_hint equal the FIPS 204 functions for EVERY a in [0,q) and both "
-        "gamma2 (the magic-constant rounding step by an exhaustive kernel-checked sweep of all 65473 intermediate values, the rest by lia), that the signer's "
-        "hint bit makes use_hint on the perturbed value return exactly w1 for every w1 in [0,m) and every |a0| < 2*gamma2 (a superset of what the signer emits), "
-        "and that the bit equals MakeHint; decompose is a bijection onto the canonical (a1,a0) set. The model is tied to rounding*.rs, poly/*.rs and polyvec/*.rs by "
-        "executing both on all gamma2-boundaries, the a1 wrap, the magic-step boundaries and random values, with an independent Python specification oracle.",
-   ref="DESIGN.md section 3, C15", technique="Coq proof (finite vm_compute sweep + lia) + differential execution model vs crate"),
+   text="Coq proofs that power2round, decompose, use_hint and make_hint equal the FIPS 204 functions for EVERY a in [0,q) and both gamma2 (magic-constant step by a kernel-checked sweep of all "
+        "65473 intermediates), that the signer's hint makes use_hint return exactly w1 for every w1 and |a0| < 2*gamma2, and that the bit is MakeHint; decompose is a bijection. Tied to "
+        "rounding*.rs / poly / polyvec by boundary cases, sweeps (exhaustive over [0,q) and all (w1,a0) in the thorough tier: 1.3*10^8 inputs) and an independent oracle.",
+   ref="DESIGN.md section 3 C15", technique="Coq proof (finite vm_compute sweep + lia) + exhaustive differential sweeps"),
+ "C16": dict(
+   text="Coq theorems: each of the 8 coefficient encoders emits exactly FIPS 204 SimpleBitPack/BitPack (defined on bit lists) of the standard length for every in-range polynomial, decoders are "
+        "total, equal BitUnpack, invert the encoders (and conversely for the bijective codecs), untouched bytes preserved; pk/sk containers = pkEncode/skEncode with round trips; the signature's "
+        "hint section = HintBitPack for every hint vector of weight <= omega, the decoder accepts exactly the canonical encodings. Tied to the 6 packing and 6 poly files by executing both on "
+        "extremes, dirty buffers, every hint-weight class and every single defect, with an independent bit-packing oracle.",
+   ref="DESIGN.md section 3 C16", technique="Coq proof (lor-as-add + lia per group, loop lemmas) + differential execution"),
  "C17": dict(
-   text="Machine-checked proofs (Coq) that the model's byte-level rejection routines return exactly the accepted prefix of the specification's CoeffFromThreeBytes / "
-        "CoeffFromHalfByte stream for ANY buffer and requested count (incl. short buffers), and that the polynomial samplers, as functions of an arbitrary XOF output "
-        "stream, are RejNTTPoly / RejBoundedPoly (with the refill loops, leftover handling proved vacuous) / BitUnpack with ranges [0,q), [-eta,eta], (-gamma1,gamma1], "
-        "and SampleInBall with exactly tau entries +-1 (Fisher-Yates invariant). The link from the abstract stream to the real SHAKE stream and the nonce formulas is "
-        "by the C12/C19 theorems and by executing model and crate on real seeds and, through the XOF tap, on scripted streams that force every refill branch; "
-        "independent Python oracle built on hashlib SHAKE.",
-   ref="DESIGN.md section 3, C17", technique="Coq proof over an abstract XOF stream + differential execution incl. XOF-tap scripted streams"),
+   text="Coq theorems: the byte-level rejection routines return exactly the accepted prefix of the specification's stream for ANY buffer and count; with the REAL sponge (C12) each sampler is the "
+        "specification's function of (seed, nonce): RejNTTPoly / RejBoundedPoly (refill loops included) / BitUnpack / SampleInBall (exactly tau entries +-1), ExpandA entry (i,j) from rho||j||i, "
+        "ExpandMask from L*kappa+i, with ranges. Tied to poly*.rs / polyvec by executing model and crate on crafted buffers, real seeds and, through the XOF tap, scripted streams forcing every "
+        "refill branch; independent oracle on hashlib SHAKE.",
+   ref="DESIGN.md section 3 C17", technique="Coq proof (abstract stream + simulation by the real sponge) + differential execution incl. XOF-tap streams"),
  "C18": dict(
-   text="Machine-checked proofs (Coq) that the model's chknorm returns 1 exactly when some coefficient has |x| >= B for every list with coefficients in [-2^30,2^30) "
-        "(a superset of the reduce32 range) and every B <= (q-1)/8, returns 1 for every B > (q-1)/8, likewise for l_chknorm/k_chknorm at every position, and that all "
-        "bounds used by the signer and verifier of the six sets are <= (q-1)/8. Tied to poly.rs / polyvec/*.rs by executing both with a single coefficient at "
-        "+-(B-1), +-B, +-(B+1), +-6283009 at enumerated positions of every polynomial of the vector for every bound, plus an independent oracle.",
-   ref="DESIGN.md section 3, C18", technique="Coq proof (induction over the coefficient loop) + differential execution model vs crate"),
+   text="Coq proofs that chknorm returns 1 exactly when some coefficient has |x| >= B for every list with coefficients in [-2^30,2^30) and every B <= (q-1)/8, returns 1 for every B > (q-1)/8, "
+        "likewise l_chknorm/k_chknorm at every position; all bounds used by the six sets are <= (q-1)/8. Tied to poly.rs / polyvec by single coefficients at +-(B-1), +-B, +-(B+1), +-6283009 at "
+        "enumerated positions of every polynomial for every bound (incl. 1, (q-1)/8, (q-1)/8+1), with an independent oracle.",
+   ref="DESIGN.md section 3 C18", technique="Coq proof (induction over the coefficient loop) + differential execution model vs crate"),
  "C19": dict(
-   text="Machine-checked proofs (Coq) that every vector operation of the model (index loops with checked get/set) equals the polynomial operation mapped over "
-        "the components, for arbitrary vectors of the right length: unary and binary lifts, multiplication by one polynomial, the matrix-vector product as the "
-        "per-row sum of pointwise products, power2round, decomposition with FIRST = high / second = low, hint creation with the summed count, hint use, w1 packing "
-        "as a splice of the concatenated encodings, and the nonce formulas of the expanders. Tied to polyvec/{lvl2,lvl3,lvl5}.rs by executing model and crate on "
-        "index-tagged vectors and by recomputing each vector result from the crate's own polynomial-level functions (lift oracle).",
-   ref="DESIGN.md section 3, C19", technique="Coq proof (generic for_idx/foldM lemmas) + differential execution + lift oracle"),
+   text="Coq proofs that every vector operation of the model (index loops with checked get/set) equals the polynomial operation mapped over the components for arbitrary vectors of the right "
+        "length, the matrix-vector product is the per-row sum of pointwise products, decomposition returns FIRST = high / second = low, hint creation returns the summed count, w1 packing is the "
+        "splice of the concatenated encodings, expanders use nonce+i / L*nonce+i / 256*i+j. Tied to polyvec/*.rs by index-tagged vectors and a lift oracle from the crate's polynomial functions.",
+   ref="DESIGN.md section 3 C19", technique="Coq proof (generic for_idx/foldM lemmas) + differential execution + lift oracle"),
 }
 NOT_YET = {}
 
